@@ -1092,7 +1092,8 @@ class Process(StateMachine, persistence.Savable, metaclass=ProcessStateMachineMe
         if self._closed:
             return
 
-        call_with_super_check(self.on_close)
+        with self._process_scope():
+            call_with_super_check(self.on_close)
 
     # region State related methods
 
